@@ -90,6 +90,9 @@ func c07Funcs(c *Ctx) []*ssa.Function {
 
 func c07() []*Ob {
 	return []*Ob{
+		{Prop: "C07", ID: "C07.10", Engine: "INDEX(guard strictness)", Floor: 30,
+			Desc:  "a length check that guards an element read excludes the length itself: wherever a function of the store-side packages compares an index with len(s) and then reads s[index] on the branch the comparison allows, the comparison implies index < len(s) (a `>` where `>=` is meant lets index == len through) — under concurrent ingest the first LID appended after a reader took its snapshot is exactly len(inversion): the search that should skip it panics with index out of range instead",
+			Check: func(c *Ctx) { guardedIndexStrict(c) }},
 		{Prop: "C07", ID: "C07.1", Engine: "LOCK", Floor: 60,
 			Desc: "guarded-by: every read/write/map update/element store through the tabled fields (active index structures, fraction hand-over state, fraction list, frac cache, async requests, file-writer queue) holds the owning object's mutex in the needed mode; helpers that rely on the caller's lock are called with it held",
 			Check: func(c *Ctx) {
@@ -757,5 +760,106 @@ func indexPublicationOrder(c *Ctx) {
 	}
 	for i := 0; i+1 < len(chain); i++ {
 		MustPrecede(c, fn, chain[i].m, chain[i].name, chain[i+1].m, chain[i+1].name)
+	}
+}
+
+// guardedIndexStrict: rule body of C07.10.
+func guardedIndexStrict(c *Ctx) {
+	strip := func(v ssa.Value) ssa.Value {
+		for {
+			switch x := v.(type) {
+			case *ssa.Convert:
+				v = x.X
+			case *ssa.ChangeType:
+				v = x.X
+			default:
+				return v
+			}
+		}
+	}
+	lenOf := func(v ssa.Value) ssa.Value {
+		cl, ok := strip(v).(*ssa.Call)
+		if !ok || CallName(cl) != "builtin.len" {
+			return nil
+		}
+		return cl.Call.Args[0]
+	}
+	n := 0
+	for _, pk := range []string{"frac", "frac/lids", "frac/token", "frac/processor", "fracmanager", "seq", "cache", "disk", "node", "util"} {
+		for _, fn := range c.P.FuncsInPkg(pk) {
+			for _, b := range fn.Blocks {
+				for _, in := range b.Instrs {
+					var x, idx ssa.Value
+					switch ia := in.(type) {
+					case *ssa.IndexAddr:
+						x, idx = ia.X, ia.Index
+					case *ssa.Index:
+						x, idx = ia.X, ia.Index
+					default:
+						continue
+					}
+					if _, isSlice := x.Type().Underlying().(*types.Slice); !isSlice {
+						if _, isStr := x.Type().Underlying().(*types.Basic); !isStr {
+							continue
+						}
+					}
+					for _, f := range FactsAtInstr(in) {
+						bo, ok := f.Cond.(*ssa.BinOp)
+						if !ok {
+							continue
+						}
+						op := bo.Op
+						var l ssa.Value
+						switch {
+						case SameValue(strip(bo.X), strip(idx)) && lenOf(bo.Y) != nil:
+							l = lenOf(bo.Y)
+						case SameValue(strip(bo.Y), strip(idx)) && lenOf(bo.X) != nil:
+							l = lenOf(bo.X)
+							switch op { // len OP idx  ==>  idx OP' len
+							case token.LSS:
+								op = token.GTR
+							case token.LEQ:
+								op = token.GEQ
+							case token.GTR:
+								op = token.LSS
+							case token.GEQ:
+								op = token.LEQ
+							}
+						default:
+							continue
+						}
+						if !SameValue(l, x) {
+							continue
+						}
+						if !f.Val {
+							switch op {
+							case token.LSS:
+								op = token.GEQ
+							case token.LEQ:
+								op = token.GTR
+							case token.GTR:
+								op = token.LEQ
+							case token.GEQ:
+								op = token.LSS
+							case token.EQL:
+								op = token.NEQ
+							case token.NEQ:
+								op = token.EQL
+							}
+						}
+						n++
+						switch op {
+						case token.LSS:
+							c.Site(in.Pos(), "%s: element read under index < len", FuncName(fn))
+						case token.LEQ:
+							c.Violation("index:guard-not-strict:"+FuncName(fn), in.Pos(), "%s reads an element under a length check that still allows index == len(...) (the comparison is off by one): the read panics exactly for the first position past the end", FuncName(fn))
+						}
+					}
+				}
+			}
+		}
+	}
+	if n == 0 {
+		c.Undecided("index:guard-not-strict:none", 0, "no length-guarded element read found")
 	}
 }
